@@ -524,7 +524,18 @@ impl Simulation {
                     // Update the simulation time.
                     #[cfg(feature = "verif-hooks")]
                     crate::verif_hooks::probe(crate::verif_hooks::site::STEP_UNTIL_BEFORE_FINAL_WRITE, 0);
-                    self.time.write(target_time);
+                    {
+                        // The scheduler queue must always be locked when the
+                        // time is updated (see `schedule_from`). Since the
+                        // queue was unlocked after it was last inspected, an
+                        // action may have been concurrently scheduled before or
+                        // at the target time: in such case, keep stepping.
+                        let scheduler_queue = self.scheduler_queue.lock().unwrap();
+                        if matches!(scheduler_queue.peek(), Some((key, _)) if key.0 <= target_time) {
+                            continue;
+                        }
+                        self.time.write(target_time);
+                    }
                     if let SyncStatus::OutOfSync(lag) = self.clock.synchronize(target_time) {
                         if let Some(tolerance) = &self.clock_tolerance {
                             if &lag > tolerance {
